@@ -40,8 +40,17 @@ impl Authorizer {
             Some(execution_time) => Ok(execution_time),
             None => {
                 let start = Instant::now();
-                self.world
-                    .run_with_limits(&self.symbols, self.limits.clone())?;
+                let mut limits = self.limits.clone();
+                // iterations spent by a previous run that hit a limit count against the budget
+                if self.world.iterations > 0 {
+                    if self.world.iterations >= limits.max_iterations {
+                        return Err(error::Token::RunLimit(
+                            error::RunLimit::TooManyIterations,
+                        ));
+                    }
+                    limits.max_iterations -= self.world.iterations;
+                }
+                self.world.run_with_limits(&self.symbols, limits)?;
                 let execution_time = start.elapsed();
                 self.execution_time = Some(execution_time);
                 Ok(execution_time)
@@ -145,7 +154,7 @@ impl Authorizer {
     {
         let execution_time = self.run()?;
         let mut limits = self.limits.clone();
-        limits.max_iterations -= self.world.iterations;
+        limits.max_iterations = limits.max_iterations.saturating_sub(self.world.iterations);
         if execution_time >= limits.max_time {
             return Err(error::Token::RunLimit(error::RunLimit::Timeout));
         }
@@ -269,7 +278,7 @@ impl Authorizer {
     {
         let execution_time = self.run()?;
         let mut limits = self.limits.clone();
-        limits.max_iterations -= self.world.iterations;
+        limits.max_iterations = limits.max_iterations.saturating_sub(self.world.iterations);
         if execution_time >= limits.max_time {
             return Err(error::Token::RunLimit(error::RunLimit::Timeout));
         }
@@ -361,7 +370,7 @@ impl Authorizer {
     pub fn authorize(&mut self) -> Result<usize, error::Token> {
         let execution_time = self.run()?;
         let mut limits = self.limits.clone();
-        limits.max_iterations -= self.world.iterations;
+        limits.max_iterations = limits.max_iterations.saturating_sub(self.world.iterations);
         if execution_time >= limits.max_time {
             return Err(error::Token::RunLimit(error::RunLimit::Timeout));
         }
